@@ -129,6 +129,9 @@ type W struct {
 	// PsExpected: GB28181 sessions (start_rtp_pub) the harness knows to be running; each has a
 	// goroutine of the server reading a real UDP socket, counted with the relay goroutines
 	PsExpected int
+	// PsAuto: count the GB28181 sessions the server's groups hold instead of PsExpected (for harnesses in
+	// which the server may end such a session by itself)
+	PsAuto bool
 	// ExtraGor: client goroutines the harness itself started (e.g. an httpflv.PullSession driven
 	// directly); each is parked on a dial or on a live connection like a relay goroutine (atomic)
 	ExtraGor int64
